@@ -19,6 +19,7 @@ fn property(id: &str) -> Option<Box<dyn Property>> {
         "C03" => Some(Box::new(props::c03::C03)),
         "C04" => Some(Box::new(props::c04::C04)),
         "C10" => Some(Box::new(props::c10::C10)),
+        "C15" => Some(Box::new(props::c15::C15)),
         _ => None,
     }
 }
